@@ -77,6 +77,11 @@ def internal_job(job):
         except gate.LogicalDeadlock as e:
             out.append(dict(id=f"{job['id']}/r{ri}", deadlock=str(e)))
             break
+        except Exception as e:  # a lifecycle call raised
+            import traceback
+            out.append(dict(id=f"{job['id']}/r{ri}", deadlock="exception in a lifecycle call: " + "".join(traceback.format_exception(type(e), e, e.__traceback__))[-1500:],
+                            history=run["history"], sched=run["sched"]))
+            break
         events = [[thread_id(n), lab] for n, lab in S.choice_labels if lab != "quiesce"]
         S.quiesce()
         tcfg = rexasync_cfg(cfg, h)
